@@ -294,7 +294,7 @@ async fn serve_conn(sh: Sh, nt: Rc<Notify>, mut s: TcpStream, cid: usize) {
         };
         nt.notify_waiters();
         // hold until the expected number of requests is in flight, then look at the world
-        if !wait_until(&sh, &nt, Duration::from_millis(1500), |g| g.inflight >= target).await {
+        if !wait_until(&sh, &nt, Duration::from_millis(4000), |g| g.inflight >= target).await {
             sh.borrow_mut().stalls += 1;
         }
         turn(3).await;
